@@ -65,6 +65,8 @@ func New6(session *packet.Session) (*Handler6, error) {
 // Close releases underlying resources.
 // The handler is not longer usable after calling Close().
 func (h *Handler6) Close() error {
+	h.Lock()
+	defer h.Unlock()
 	if h.closed {
 		return nil
 	}
@@ -177,11 +179,14 @@ func (h *Handler6) ProcessPacket(pkt packet.Frame) (err error) {
 
 		// wakeup all pending spoof goroutines
 		// we want to immediately spoof hosts after an RA
-		if h.huntList.Len() > 0 {
+		// after Close() the channel is closed for good: closing it again would panic
+		h.Lock()
+		if h.huntList.Len() > 0 && !h.closed {
 			ch := h.closeChan
 			h.closeChan = make(chan bool)
 			close(ch) // this will cause all spoof loop select to wakeup
 		}
+		h.Unlock()
 
 		repeat++
 		if repeat%4 != 0 { // skip if too often - home router send RA every 4 sec
